@@ -13,17 +13,18 @@ use core::pin::Pin;
 use core::task::Context;
 use tokio::io::{AsyncBufRead, AsyncRead, AsyncWrite, ReadBuf};
 
-/// In-memory duplex over fixed arrays (always ready, EOF at the end of `b`).  Stack arrays
-/// keep constant octets (version, address type) constant for the symbolic execution.
+/// In-memory duplex over fixed arrays (always ready, EOF at the end of `b`).  The byte
+/// buffers live in their own (leaked) objects: a memcpy from or into a buffer that shares an
+/// object with the cursor state makes CBMC lose the constants of that state (DESIGN §3.7).
 pub struct Mem<const N: usize> {
-    b: [u8; N],
+    b: &'static [u8; N],
     pos: usize,
-    out: [u8; 32],
+    out: &'static mut [u8; 32],
     out_len: usize,
 }
 impl<const N: usize> Mem<N> {
     fn new(b: [u8; N]) -> Self {
-        Self { b, pos: 0, out: [0; 32], out_len: 0 }
+        Self { b: Box::leak(Box::new(b)), pos: 0, out: Box::leak(Box::new([0; 32])), out_len: 0 }
     }
     fn position(&self) -> usize {
         self.pos
